@@ -253,7 +253,9 @@ static void *mp_consumer (void *a) {
 	int r;
 	(void) a;
 	for (r = 1; r <= ITERS; r++) {
-		while (p_atomic_int_get (&flag) != r) ;
+		pint f;
+		while ((f = p_atomic_int_get (&flag)) != r && f != -1) ;
+		if (f == -1) break;			/* the producer stopped at the deadline */
 		if (data != r) stale++;
 		p_atomic_int_set (&ack, r);
 	}
@@ -265,15 +267,21 @@ typedef struct { volatile pint x; char p1[60]; volatile pint y; char p2[60]; ppo
 static SBCell *sbc;
 static int *sb_ra, *sb_rb, *sb_pa, *sb_pb;
 static volatile int sb_gate[2];
-static void sb_sync (int me, int r) {      /* harness-level rendezvous every 32 rounds keeps the two threads overlapping */
-	if (r % 32) return;
+static volatile int sb_stop, sb_rounds;
+/* harness-level rendezvous every 32 rounds keeps the two threads overlapping; thread 0 decides there whether the
+   deadline has passed (published before its gate value, so both stop at the same round).  Returns 1 = stop. */
+static int sb_sync (int me, int r) {
+	if (r % 32) return 0;
+	if (me == 0 && now_s () > deadline) { sb_rounds = r; __atomic_store_n (&sb_stop, 1, __ATOMIC_SEQ_CST); }
 	__atomic_store_n (&sb_gate[me], r + 1, __ATOMIC_SEQ_CST);
+	if (me == 0 && sb_stop) return 1;
 	while (__atomic_load_n (&sb_gate[1 - me], __ATOMIC_SEQ_CST) < r + 1) ;
+	return __atomic_load_n (&sb_stop, __ATOMIC_SEQ_CST);
 }
 static void *sb_a (void *a) {
 	int r; (void) a;
 	for (r = 0; r < ITERS; r++) {
-		sb_sync (0, r);
+		if (sb_sync (0, r)) break;
 		p_atomic_int_set (&sbc[r].x, 1);
 		sb_ra[r] = p_atomic_int_get (&sbc[r].y);
 		p_atomic_pointer_set (&sbc[r].px, (ppointer) &sbc[r]);
@@ -284,7 +292,7 @@ static void *sb_a (void *a) {
 static void *sb_b (void *a) {
 	int r; (void) a;
 	for (r = 0; r < ITERS; r++) {
-		sb_sync (1, r);
+		if (sb_sync (1, r)) break;
 		p_atomic_int_set (&sbc[r].y, 1);
 		sb_rb[r] = p_atomic_int_get (&sbc[r].x);
 		p_atomic_pointer_set (&sbc[r].py, (ppointer) &sbc[r]);
@@ -372,6 +380,7 @@ int main (int argc, char **argv) {
 		pthread_create (&ta, NULL, sb_a, NULL);
 		pthread_create (&tb, NULL, sb_b, NULL);
 		pthread_join (ta, NULL); pthread_join (tb, NULL);
+		if (sb_stop) ITERS = sb_rounds;		/* rounds both threads completed */
 		for (r = 0; r < ITERS; r++) { if (!sb_ra[r] && !sb_rb[r]) fi++; if (!sb_pa[r] && !sb_pb[r]) fp++; }
 		printf ("sb forbidden_int %ld forbidden_ptr %ld rounds %d\n", fi, fp, ITERS);
 	} else if (!strcmp (mode, "mp")) {
@@ -379,13 +388,14 @@ int main (int argc, char **argv) {
 		int r;
 		ITERS = N;
 		pthread_create (&c, NULL, mp_consumer, NULL);
-		for (r = 1; r <= ITERS; r++) {
+		for (r = 1; r <= ITERS && !EXPIRED (r); r++) {
 			data = r;
 			p_atomic_int_set (&flag, r);
 			while (p_atomic_int_get (&ack) != r) ;
 		}
+		if (r <= ITERS) p_atomic_int_set (&flag, -1);
 		pthread_join (c, NULL);
-		printf ("mp stale %ld rounds %d\n", stale, ITERS);
+		printf ("mp stale %ld rounds %d\n", stale, r - 1);
 	} else { fprintf (stderr, "unknown mode\n"); return 2; }
 	return 0;
 }
